@@ -3,6 +3,7 @@ package value
 import (
 	"fmt"
 	"sync"
+	"sync/atomic"
 )
 
 var RWMutexClass *Class              // ::Std::Sync::RWMutex
@@ -10,7 +11,10 @@ var RWMutexUnlockedErrorClass *Class // ::Std::Sync::RWMutex::UnlockedError
 
 // Wraps a Go RWMutex.
 type RWMutex struct {
-	Native sync.RWMutex
+	Native  sync.RWMutex
+	locked  atomic.Bool  // whether Native is held for writing
+	readers atomic.Int64 // how many times Native is held for reading
+	// unlocking a free sync.RWMutex is a fatal error that cannot be recovered
 }
 
 func NewRWMutex() *RWMutex {
@@ -55,29 +59,33 @@ func (*RWMutex) InstanceVariables() *InstanceVariables {
 
 func (m *RWMutex) Lock() {
 	m.Native.Lock()
+	m.locked.Store(true)
 }
 
 func (m *RWMutex) ReadLock() {
 	m.Native.RLock()
+	m.readers.Add(1)
 }
 
 func (m *RWMutex) Unlock() (err Value) {
-	defer func() {
-		if r := recover(); r != nil {
-			err = Ref(NewError(RWMutexUnlockedErrorClass, "a rwmutex that is unlocked for writing cannot be unlocked for writing"))
-		}
-	}()
+	if !m.locked.CompareAndSwap(true, false) {
+		return Ref(NewError(RWMutexUnlockedErrorClass, "a rwmutex that is unlocked for writing cannot be unlocked for writing"))
+	}
 
 	m.Native.Unlock()
 	return Undefined
 }
 
 func (m *RWMutex) ReadUnlock() (err Value) {
-	defer func() {
-		if r := recover(); r != nil {
-			err = Ref(NewError(RWMutexUnlockedErrorClass, "a rwmutex that is unlocked for reading cannot be unlocked for reading"))
+	for {
+		readers := m.readers.Load()
+		if readers <= 0 {
+			return Ref(NewError(RWMutexUnlockedErrorClass, "a rwmutex that is unlocked for reading cannot be unlocked for reading"))
 		}
-	}()
+		if m.readers.CompareAndSwap(readers, readers-1) {
+			break
+		}
+	}
 
 	m.Native.RUnlock()
 	return Undefined
